@@ -310,7 +310,10 @@ def run(tier):
     recs = common.split_raised('C11', v, recs)
     n_sim = len(recs)
     # reproducibility: fresh processes, different hash seeds, different chunking
-    rep_specs = specs[::max(1, len(specs) // (6 if tier == 'quick' else 20))]
+    # (a plain stride aliased with the period of the noise loop: 7, 11 are coprime to it)
+    n_rep = min(len(specs), 7 if tier == 'quick' else 21)
+    rep_specs = [specs[(j * (7 if len(specs) % 7 else 11)) % len(specs)] for j in range(n_rep)]
+    rep_specs = [sp for k, sp in enumerate(rep_specs) if sp not in rep_specs[:k]]
     with concurrent.futures.ThreadPoolExecutor(max_workers=12) as ex:
         futs = []
         for sp in rep_specs:
